@@ -281,6 +281,8 @@ pub struct CallDriver<'g, T> {
     pub sh: Shared,
     pub flag: Arc<Flag>,
     waker: Waker,
+    /// Every poll gets a fresh waker (decided per run spec).
+    rotate_waker: bool,
     need_poll: bool,
     spurious_left: u8,
     idle_polls: usize,
@@ -320,6 +322,7 @@ impl<'g, T> CallDriver<'g, T> {
             sh,
             flag,
             waker,
+            rotate_waker: (crate::runner::hash_of(spec) >> 3) & 1 == 1,
             need_poll: true,
             spurious_left: spec.spurious,
             idle_polls: 0,
@@ -352,7 +355,15 @@ impl<'g, T> CallDriver<'g, T> {
     }
 
     fn poll_once(&mut self, spurious: bool) {
-        self.flag.clear();
+        if self.rotate_waker {
+            // a new waker for every poll (a task may be polled with a different waker each time;
+            // only the most recent one has to be woken): a library that keeps the first waker it
+            // saw shows up as a lost wake-up
+            self.flag = Flag::new();
+            self.waker = Waker::from(self.flag.clone());
+        } else {
+            self.flag.clear();
+        }
         let len_before = {
             let mut st = self.sh.borrow_mut();
             st.log.push(if spurious { Ev::Spurious } else { Ev::Poll });
@@ -583,6 +594,8 @@ pub struct StreamDriver<'g> {
     pub sh: Shared,
     pub flag: Arc<Flag>,
     waker: Waker,
+    /// Every poll gets a fresh waker (decided per run spec).
+    rotate_waker: bool,
     pub held: Vec<(u32, FnRef<'g, TFn>)>,
     last_was_item: bool,
     first: bool,
@@ -619,6 +632,7 @@ impl<'g> StreamDriver<'g> {
             sh,
             flag,
             waker,
+            rotate_waker: (crate::runner::hash_of(spec) >> 3) & 1 == 1,
             held: Vec::new(),
             last_was_item: false,
             first: true,
@@ -639,7 +653,12 @@ impl<'g> StreamDriver<'g> {
     }
 
     fn poll_once(&mut self, spurious: bool) {
-        self.flag.clear();
+        if self.rotate_waker {
+            self.flag = Flag::new();
+            self.waker = Waker::from(self.flag.clone());
+        } else {
+            self.flag.clear();
+        }
         self.sh.borrow_mut().log.push(if spurious { Ev::Spurious } else { Ev::Poll });
         self.polls += 1;
         self.first = false;
